@@ -38,16 +38,19 @@ HasCall(e, name) ==
     [] OTHER -> FALSE
 
 \* a case names a standard environment or carries its own
-RunOf(rec) == IF "envid" \in DOMAIN rec THEN Run(rec.e, InEnv(StdEnvIn(rec.envid)), StdPre(rec.envid))
-              ELSE Run(rec.e, InEnv(rec.env), rec.pre)
+RunOf(rec) == IF "envid" \in DOMAIN rec THEN Run2(rec.e, InEnv(StdEnvIn(rec.envid)), StdPre(rec.envid), StdPost(rec.envid))
+              ELSE Run2(rec.e, InEnv(rec.env), rec.pre, IF "post" \in DOMAIN rec THEN rec.post ELSE <<>>)
 
 BackendWhy(b, o, run, ity) ==
   \* o: the observed outcome of back end b; run: the specification's Run; ity: observed inferred type
   LET acc == run.acc
       r == IF acc THEN run.r ELSE [st |-> "none"] IN
   (IF acc = (o.class # "reject") /\ o.class # "compile-panic" THEN {} ELSE {"accept_" \o b})
-  \cup (IF acc /\ o.class = "value" /\ ~HasType(o.v, ity) THEN {"hastype_" \o b} ELSE {})
-  \cup (IF acc /\ o.class = "fail" /\ o.kind \notin DocumentedKinds THEN {"nofault_" \o b} ELSE {})
+  \* C01 / C02 speak about whatever the CODE accepted, whether or not the specification accepts it
+  \cup (IF o.class = "value" /\ ~HasType(o.v, ity) THEN {"hastype_" \o b} ELSE {})
+  \cup (IF o.class = "fail" /\ o.kind \notin DocumentedKinds THEN {"nofault_" \o b} ELSE {})
+  \* it stops exactly when the semantics says so: no failure where a value is defined
+  \cup (IF acc /\ r.st = "ok" /\ o.class = "fail" THEN {"nofail_" \o b} ELSE {})
   \cup (IF acc /\ r.st = "ok" /\ ~(o.class = "value" /\ SameVal(o.v, r.v)) THEN {"value_" \o b} ELSE {})
   \cup (IF acc /\ r.st = "fail" /\ ~(o.class = "fail" /\ o.kind \in AllowedKinds(r.why)) THEN {"failclass_" \o b} ELSE {})
   \cup (IF acc /\ r.st = "stuck" THEN {"specstuck_" \o b} ELSE {})
